@@ -157,7 +157,19 @@ impl Prop for C17 {
             let mut cfg = Cfg::rich();
             let html;
             let stream;
-            match r.b(4) {
+            match r.b(5) {
+                4 => {
+                    // several <style> elements: each is parsed on its own, a malformed one must not swallow the others
+                    cfg.use_doc_css = true;
+                    let safe = s.replace("</", "< /").replace('<', " ");
+                    let good = "<style>.b{color:#0000ff} em{color:#010203} #i1{background-color:#040506}</style>";
+                    html = match r.b(3) {
+                        0 => format!("<style>{safe}</style>{good}<div class=a><p id=i1>qb <em>qc</em></p><ul><li>qd<li class=b>qf</ul></div>"),
+                        1 => format!("{good}<style>{safe}</style><div class=a><p id=i1>qb <em>qc</em></p><ul><li>qd<li class=b>qf</ul></div>"),
+                        _ => format!("<style>{safe}</style><div class=a><p id=i1>qb <em>qc</em></p>{good}<ul><li>qd<li class=b>qf</ul></div><style>{safe}</style>"),
+                    };
+                    stream = "style-elements";
+                }
                 0 => {
                     cfg.user_css = Some(s);
                     html = "<div class=a><p id=i1>qb <em>qc</em></p><ul><li>qd<li class=b>qf</ul></div>".to_string();
@@ -211,7 +223,7 @@ impl Prop for C17 {
                 return out;
             }
         }
-        if c.stream == "style-element" || c.stream == "style-attribute" {
+        if c.stream == "style-element" || c.stream == "style-attribute" || c.stream == "style-elements" {
             // document CSS must not change whether, or what text, is rendered
             if !matches!(o, Obs::Ok(_)) {
                 out.push(viol(format!("a document with embedded CSS gives {}", o.short())));
